@@ -945,6 +945,19 @@ impl<'a> Gen<'a> {
                     );
                     cond = GExpr::Bin("and", Box::new(cond), Box::new(always));
                 }
+                if self.r.chance(1, 12) {
+                    // a condition that cannot be evaluated: on the evaluation on which the counter has a particular
+                    // value (then the condition is tried again by every further call, and fails again: the run ends in
+                    // error items), or — with a draw — on some evaluations only (tried again until the draw allows it)
+                    let k2 = self.r.below(3) as i64;
+                    let bad = if p.p_random > 0 && self.r.chance(1, 2) {
+                        GExpr::Bin("div", Box::new(GExpr::Num(8)), Box::new(GExpr::Bin("sub", Box::new(GExpr::Call("random".into(), vec![GExpr::Num(3)])), Box::new(GExpr::Num(1)))))
+                    } else {
+                        GExpr::Bin("div", Box::new(GExpr::Num(8)), Box::new(GExpr::Bin("sub", Box::new(GExpr::Var(w.clone())), Box::new(GExpr::Num(k2)))))
+                    };
+                    // `cond & (bad | 1)`: the truth of the condition is the counter's, the evaluation may fail
+                    cond = GExpr::Bin("and", Box::new(cond), Box::new(GExpr::Bin("or", Box::new(bad), Box::new(GExpr::Num(1)))));
+                }
                 let mut body = self.block(depth - 1, false);
                 // the update must rebind the same binding: it does, because while opens no scope —
                 // unless the body sits inside a loop frame opened after the counter was bound, which
@@ -1023,6 +1036,22 @@ impl<'a> Gen<'a> {
     }
 
     fn loop_bound(&mut self) -> GExpr {
+        if self.r.chance(1, 14) {
+            // a bound that cannot be evaluated, always or on some passes of an enclosing loop: the loop is skipped by
+            // an error item and the run goes on behind it (no scope may be left open)
+            let vars = self.in_scope();
+            return match self.r.below(5) {
+                0 => GExpr::Bin("div", Box::new(GExpr::Num(3)), Box::new(GExpr::Num(0))),
+                1 => GExpr::Call("random".into(), vec![GExpr::Num(self.r.below(2) as i64)]),
+                2 | 3 if !vars.is_empty() => {
+                    // fails on the pass on which the variable has that value
+                    let v = self.r.pick(&vars).clone();
+                    let k = self.r.below(3) as i64;
+                    GExpr::Bin("div", Box::new(GExpr::Num(4)), Box::new(GExpr::Bin("sub", Box::new(GExpr::Var(v)), Box::new(GExpr::Num(k)))))
+                }
+                _ => GExpr::Call("signExt".into(), vec![GExpr::Num(2), GExpr::Num(1)]),
+            };
+        }
         match self.r.below(12) {
             0 => GExpr::Num(0),
             1 => GExpr::Un("neg", Box::new(GExpr::Num(self.r.below(3) as i64 + 1))),
